@@ -165,6 +165,27 @@ def bisect_build_failure(items, timeout):
     return bad
 
 
+def judge_build_failure(chunk, timeout, err):
+    """A batch of generated items does not build.  Returns (violations, None) - items whose constant cannot be evaluated
+    (E0080) or that collect_const! rejects although the same chain compiles on std iterators - or (None, message) when
+    the generator itself is at fault (the std twin does not compile either)."""
+    bad = bisect_build_failure(chunk, timeout)
+    if not bad:
+        return None, "[gen_collect] batch fails to build but every half builds:\n" + err[-3000:]
+    vs = []
+    for i, e in bad:
+        if "E0080" in e or "evaluation" in e:
+            vs.append((chunk[i], "const evaluation of the collect_const! item failed: " + " ".join(re.findall(r"error(?:\[E\d+\])?: .*", e)[:3])))
+            continue
+        ty, k, st, decl = chunk[i]
+        driver.write_bin("c11_collect_twin", "#![allow(unused)]\nfn main() { %s let s: Vec<%s> = %s; println!(\"{}\", s.len()); }\n" % (decl, ty, st))
+        okt, outt = driver.build_bin("c11_collect_twin")
+        if not okt:
+            return None, "[gen_collect] generated program does not compile, nor does its std twin (generator error):\n%s\n%s" % (chunk[i], e[-3000:])
+        vs.append((chunk[i], "the chain compiles on std iterators but collect_const! rejects it: " + " ".join(re.findall(r"error(?:\[E\d+\])?: .*", e)[:2])))
+    return vs, None
+
+
 def run(prop, tier, seed, out, timeout, **kw):
     t0 = time.time()
     rng = random.Random(seed * 31 + 11)
@@ -184,14 +205,10 @@ def run(prop, tier, seed, out, timeout, **kw):
         chunk = items[b:b + per]
         outr, err = build_and_run("c11_collect", chunk, timeout)
         if outr is None:
-            bad = bisect_build_failure(chunk, timeout)
-            if not bad:
-                return 2, "[gen_collect] batch fails to build but every half builds:\n" + err[-3000:]
-            for i, e in bad:
-                if "E0080" in e or "evaluation" in e:
-                    violations.append((chunk[i], "const evaluation of the collect_const! item failed: " + " ".join(re.findall(r"error(?:\[E\d+\])?: .*", e)[:3])))
-                else:
-                    return 2, "[gen_collect] generated program does not compile (generator error):\n%s\n%s" % (chunk[i], e[-3000:])
+            vs, problem = judge_build_failure(chunk, timeout, err)
+            if problem:
+                return 2, problem
+            violations.extend(vs)
             continue
         for line in outr.splitlines():
             if line.startswith("FAIL "):
